@@ -121,6 +121,38 @@ def check_name(run, name: str, eps) -> None:
         del all_named
 
 
+def check_ranges_by_table(run, name: str) -> None:
+    """named ranges looked up by the name of their table: exactly those of that table"""
+    from odfdo import Document, Table
+
+    doc = Document("spreadsheet")
+    body = doc.body
+    body.clear()
+    names = []
+    for n in [name] + variants(name):
+        try:
+            t = Table(n)
+        except (ValueError, TypeError):
+            continue
+        if t.name in names:
+            continue
+        names.append(t.name)
+        body.append(t)
+    if not names or names[0] != name.strip():
+        return
+    for i, n in enumerate(names):
+        body.get_table(i).set_named_range(f"range_{i}", (i, 0))
+    run.count()
+    run.klass("get_named_ranges(table_name=)", "decoys", len(names) > 3)
+    try:
+        got = sorted(r.name for r in body.get_table(0).get_named_ranges(table_name=names[0]))
+    except Exception as ex:  # noqa: BLE001
+        run.violation("query-error|get_named_ranges(table_name=)", {"kind": "exc", "name": name, "got": repr(ex)[:200]})
+        return
+    if got != ["range_0"]:
+        run.violation("wrong-object|get_named_ranges(table_name=)", {"kind": "wrong", "name": names[0], "tables": names, "got": got})
+
+
 def main(tier: str) -> int:
     run = Run("C14", tier)
     run.coverage["rule"] = (
@@ -171,6 +203,7 @@ def main(tier: str) -> int:
     sel = names if tier == "thorough" else rng.sample(names, min(len(names), 60))
     for name in sel + EXTRA:
         check_name(run, name, eps)
+        check_ranges_by_table(run, name)
     run.validated(len(sel) + len(EXTRA))
     run.sample({"binding": "A:name", "name": names[40], "spec_expression": "".join(map(chr, recs[40]["expr"]))})
     return run.finish()
